@@ -23,6 +23,59 @@ type c34Op struct {
 	Write  bool  `json:"write"`
 	Node   int   `json:"node"`
 	Value  int32 `json:"value"`
+	// Batch: the operation travels in a request with a second entry in front of it:
+	// 1 = for a node of a namespace the server does not have, 2 = for a node that does not exist
+	Batch int `json:"batch,omitempty"`
+}
+
+func c34Pre(e *env, batch int) *ua.NodeID {
+	switch batch {
+	case 1:
+		return ua.NewNumericNodeID(77, 1)
+	case 2:
+		return ua.NewNumericNodeID(e.nodeID(0).Namespace(), 424242)
+	}
+	return nil
+}
+
+func c34Write(ctx context.Context, c *opcua.Client, e *env, op c34Op) (ua.StatusCode, error) {
+	pre := c34Pre(e, op.Batch)
+	if pre == nil {
+		return writeInt(ctx, c, e.nodeID(op.Node), op.Value)
+	}
+	val := func(v int32) *ua.DataValue {
+		return &ua.DataValue{EncodingMask: ua.DataValueValue, Value: ua.MustVariant(v)}
+	}
+	resp, err := c.Write(ctx, &ua.WriteRequest{NodesToWrite: []*ua.WriteValue{
+		{NodeID: pre, AttributeID: ua.AttributeIDValue, Value: val(-1)},
+		{NodeID: e.nodeID(op.Node), AttributeID: ua.AttributeIDValue, Value: val(op.Value)}}})
+	if err != nil {
+		return 0, err
+	}
+	if len(resp.Results) != 2 {
+		return 0, fmt.Errorf("%d results", len(resp.Results))
+	}
+	return resp.Results[1], nil
+}
+
+func c34Read(ctx context.Context, c *opcua.Client, e *env, op c34Op) (int32, ua.StatusCode, error) {
+	pre := c34Pre(e, op.Batch)
+	if pre == nil {
+		return readInt(ctx, c, e.nodeID(op.Node))
+	}
+	resp, err := c.Read(ctx, &ua.ReadRequest{NodesToRead: []*ua.ReadValueID{{NodeID: pre, AttributeID: ua.AttributeIDValue}, {NodeID: e.nodeID(op.Node), AttributeID: ua.AttributeIDValue}}, TimestampsToReturn: ua.TimestampsToReturnNeither})
+	if err != nil {
+		return 0, 0, err
+	}
+	if len(resp.Results) != 2 {
+		return 0, 0, fmt.Errorf("%d results", len(resp.Results))
+	}
+	r := resp.Results[1]
+	if r.Status != ua.StatusOK || r.Value == nil {
+		return 0, r.Status, nil
+	}
+	v, _ := r.Value.Value().(int32)
+	return v, r.Status, nil
 }
 
 type c34Params struct {
@@ -77,7 +130,7 @@ func c34Body(p c34Params) func() {
 					op.Client = ci
 					ev := c34Event{op: op, call: stepClock()}
 					if op.Write {
-						st, err := writeInt(ctx, clients[ci], e.nodeID(op.Node), op.Value)
+						st, err := c34Write(ctx, clients[ci], e, op)
 						ev.ok = err == nil && st == ua.StatusOK
 						if err != nil {
 							ev.errText = err.Error()
@@ -85,7 +138,7 @@ func c34Body(p c34Params) func() {
 							ev.errText = st.Error()
 						}
 					} else {
-						v, st, err := readInt(ctx, clients[ci], e.nodeID(op.Node))
+						v, st, err := c34Read(ctx, clients[ci], e, op)
 						ev.ok = err == nil && st == ua.StatusOK
 						ev.out = v
 						if err != nil {
@@ -208,7 +261,14 @@ func c34Scenarios(thorough bool) []driver.Scenario {
 	r := func(n int) c34Op { return c34Op{Node: n} }
 	add("w1r|w2r", c34Params{Nodes: 1, Delay: true, Clients: [][]c34Op{{w(0, 1), r(0)}, {w(0, 2), r(0)}}}, 1)
 	add("w1|r,r|server-w2", c34Params{Nodes: 1, Delay: true, Clients: [][]c34Op{{w(0, 1)}, {r(0), r(0)}}, Server: []c34Op{w(0, 2)}}, 1)
+	// operations that share their request with an entry the server must refuse
+	wb := func(n int, v int32, b int) c34Op { return c34Op{Write: true, Node: n, Value: v, Batch: b} }
+	rb := func(n int, b int) c34Op { return c34Op{Node: n, Batch: b} }
+	for b := 1; b <= 2; b++ {
+		add(fmt.Sprintf("batched%d:w1r|w2r", b), c34Params{Nodes: 1, Delay: true, Clients: [][]c34Op{{wb(0, 1, b), rb(0, b)}, {w(0, 2), r(0)}}}, 0)
+	}
 	if thorough {
+		add("batched1:w1r|w2r/bound1", c34Params{Nodes: 1, Delay: true, Clients: [][]c34Op{{wb(0, 1, 1), rb(0, 1)}, {w(0, 2), r(0)}}}, 1)
 		add("w1r|w2r/bound2", c34Params{Nodes: 1, Delay: true, Clients: [][]c34Op{{w(0, 1), r(0)}, {w(0, 2), r(0)}}}, 2)
 		add("3clients-2nodes", c34Params{Nodes: 2, Delay: true, Clients: [][]c34Op{{w(0, 1), r(1)}, {w(1, 2), r(0)}, {r(0), r(1)}}}, 1)
 		add("w1r|w2r/preemption-bounded", c34Params{Nodes: 1, Clients: [][]c34Op{{w(0, 1), r(0)}, {w(0, 2), r(0)}}}, 1)
